@@ -39,13 +39,13 @@ type c13Case struct {
 	GraphLevel bool       `json:"graphLevel"`
 	Target     int        `json:"target"`
 	// how the implementation side builds it
-	Kind       string   `json:"kind"`       // node | post | maxsteps | cancel | fwdpanic
-	LambdaKind string   `json:"lambdaKind"` // i|s|c|t  (native paradigm of the failing lambda)
-	Paradigm   string   `json:"paradigm"`   // invoke|stream|collect|transform
-	Mode       []string `json:"mode"`       // per graph level: pregel|dag
-	Siblings   int      `json:"siblings"`   // parallel siblings next to the failing node
+	Kind       string   `json:"kind"`             // node | post | maxsteps | cancel | fwdpanic
+	LambdaKind string   `json:"lambdaKind"`       // i|s|c|t  (native paradigm of the failing lambda)
+	Paradigm   string   `json:"paradigm"`         // invoke|stream|collect|transform
+	Mode       []string `json:"mode"`             // per graph level: pregel|dag
+	Siblings   int      `json:"siblings"`         // parallel siblings next to the failing node
 	CoFail     int      `json:"coFail,omitempty"` // the first CoFail siblings fail too, in the same step, with the same error value
-	AsCustom   bool     `json:"asCustom"`   // leaf is a custom error type matched with errors.As
+	AsCustom   bool     `json:"asCustom"`         // leaf is a custom error type matched with errors.As
 }
 
 type c13Obs struct {
